@@ -41,6 +41,36 @@ def restore():
         random._urandom = _real_random_urandom
 
 
+def forked(n, fn):
+    """fn(i) executed in n children forked one after the other from this process in its present state (a pre-fork server's
+    workers); results come back pickled through a pipe.  The real randomness sources are put back first: the harness' own
+    deterministic generator would of course be inherited identically by every child, and that is not the code's doing."""
+    import pickle
+    restore()
+    random.seed()
+    out = []
+    for i in range(n):
+        rfd, wfd = os.pipe()
+        pid = os.fork()
+        if pid == 0:
+            try:
+                os.close(rfd)
+                try:
+                    res = ('ok', fn(i))
+                except BaseException as e:  # noqa
+                    res = ('exc', '%s: %s' % (type(e).__name__, e))
+                with os.fdopen(wfd, 'wb') as f:
+                    pickle.dump(res, f)
+            finally:
+                os._exit(0)
+        os.close(wfd)
+        with os.fdopen(rfd, 'rb') as f:
+            data = f.read()
+        os.waitpid(pid, 0)
+        out.append(pickle.loads(data) if data else ('exc', 'child %d died without a result' % i))
+    return out
+
+
 def scratch_home():
     """Redirect HOME to a fresh directory under /dev/shm BEFORE any frontend.* / toolkit.logger import
     (those modules compute ~/.sse paths at import time).  Removed at exit by the creating process only."""
